@@ -64,7 +64,7 @@ func distinctChain() *sim.Chain {
 		var txs []sim.Tx
 		for i := 0; i < 2; i++ {
 			ctr += 11
-			tx := sim.Tx{Idx: uint64(i), From: addr(), Value: nb(), Input: []byte{byte(ctr), byte(ctr >> 8), 0x77, byte(i + 1)}, Type: 2,
+			tx := sim.Tx{Idx: uint64(i), From: addr(), Value: nb(), Input: []byte{byte(ctr), byte(ctr >> 8), 0x77, byte(i + 1)}, Type: []byte{2, 3, 4}[(2*b+i)%3], // every type that carries fee caps
 				Nonce: uint64(ctr), Gas: uint64(30000 + ctr), GasPrice: nb(), MaxPrio: nb(), MaxFee: nb(), V: big.NewInt(1), R: nb(), S: nb(),
 				Status: 1, GasUsed: uint64(21000 + ctr), EffGasPrice: nb()}
 			if i == 0 {
